@@ -28,7 +28,14 @@ def c17_1(ctx):
     ctx.rule('C17.1', 'included twice / missing / ambiguous file -> exit; every loaded file recorded in the shared set', 6)
     hi = ctx.repo.func(AF + '._handle_include_file')
     res = resolver(ctx, hi, inline=False)
-    used = hi.call_params[-1].arg
+    # the parameter holding the set of files loaded so far: the one the located path is tested against
+    used = None
+    for c_ in ast.walk(hi.node):
+        if isinstance(c_, ast.Compare) and len(c_.ops) == 1 and isinstance(c_.ops[0], (ast.In, ast.NotIn)) and isinstance(c_.comparators[0], ast.Name) \
+                and c_.comparators[0].id in hi.param_names:
+            used = c_.comparators[0].id
+    if used is None:
+        used = next((p_ for p_ in hi.param_names if 'files_used' in p_), hi.call_params[-1].arg)
     rec = [c for c in ast.walk(hi.node) if isinstance(c, ast.Call) and isinstance(c.func, ast.Attribute) and c.func.attr == 'load_line_objects']
     if len(rec) != 1:
         raise AnalysisError('_handle_include_file: expected one recursive load_line_objects call')
@@ -37,7 +44,7 @@ def c17_1(ctx):
     cl = facts_at(ctx, hi, rec[0], res)
     ok = clause_implies(cl, lit_cmp(ctx, hi, f'new_filepath not in {used}', res))
     ctx.check(ok, 'include:twice-rejected', hi.site(rec[0]), 'a file already loaded is rejected before it is loaded again', describe_facts(cl))
-    lu = load.call_params[-1].arg
+    lu = next((p_ for p_ in load.param_names if p_ == used), None) or next((p_ for p_ in load.param_names if 'files_used' in p_), load.call_params[-1].arg)
     ctx.check(unparse(b.get(lu)) == used, 'include:same-set-handed-down', hi.site(rec[0]),
               'the set of loaded files handed to the nested load is the very set this load uses (siblings see each other\'s files)',
               f'{lu}={unparse(b.get(lu)) if b.get(lu) is not None else "<default>"}')
@@ -140,6 +147,10 @@ def c17_5(ctx):
                             ('current_scope', 'self.label_scope', 'label scope (its own file scope)'), ('line_num', '0', 'line counter')):
         a = [n for n in walk_no_nested(load.node) if isinstance(n, ast.Assign) and unparse(n.targets[0]) == var and not any(x is n for x in ast.walk(lp))]
         ok = len(a) == 1 and unparse(a[0].value) == want
+        if ok:
+            # fresh for every file: not handed in from outside, and not created conditionally
+            fc = filter_facts_at(ctx, load, a[0], resolver(ctx, load, inline=False))
+            ok = var not in load.param_names and fc == []
         if var == 'line_num' and not a:
             # the counter may also be the index of an enumeration of the file's lines starting at 1
             lid = [c for c in ast.walk(lp) if isinstance(c, ast.Call) and unparse(c.func) == 'LineIdentifier' and c.args]
@@ -217,6 +228,7 @@ RULES = [c17_1, c17_3, c17_5, c17_6]
 
 _A = 'assembler/assembly_file.py'
 MUTANTS = [
+    V('c17-condition-stack-handed-down', 'assembler/assembly_file.py', "                condition_stack = ConditionStack()\n", "                condition_stack = getattr(preprocessor, '_stack_of_includer', None) or ConditionStack()\n", 'C17.5'),
     V('c17-include-name-with-slash', 'assembler/assembly_file.py', "([\\w\\.\\-\\_]+)(?:\\'|\\\")',", "([\\w\\.\\-\\_/]+)(?:\\'|\\\")',", 'C17.1'),
     V('c17-twice-allowed', _A, "            if new_filepath in assembly_files_used:\n                sys.exit(f'ERROR: {line_id} - assembly file included multiple times')\n", "", 'C17.1'),
     V('c17-private-copy', _A, "                assembly_files_used=assembly_files_used\n            )", "                assembly_files_used=set(assembly_files_used)\n            )", 'C17.1'),
